@@ -76,6 +76,11 @@ def breakages(cfg):
                 c = clone()
                 c["pipelines"][p][k].setdefault("depends_on", []).insert(pos, "nosuchstage")
                 yield "depends_on->stage", c
+            # ... and a BLANK name (a stray `-` in a YAML list) first or last: it names no stage either
+            for pos in sorted({0, nd}):
+                c = clone()
+                c["pipelines"][p][k].setdefault("depends_on", []).insert(pos, "")
+                yield "depends_on->blank", c
             # the effective name of another stage reached through the DEFAULT (task / pipeline name) of an unnamed stage
             other = stages[(k + 1) % len(stages)]
             if len(stages) > 1:
